@@ -19,7 +19,7 @@ MANIFEST = {
             "method, tearDown, cleanups, each a sequence of assertThat/expectThat/assert_that and raise statements): "
             "assertions raise iff the matcher mismatches, expectThat never raises and forces a failure after the test "
             "has finished whatever the test raises before or afterwards (skip, expected failure, unexpected success, "
-            "error, setUp itself raising included), every mismatch "
+            "error, setUp itself raising included; wherever setUp/tearDown upcall the base method), every mismatch "
             "detail is attached under a fresh name (pigeonhole termination of the unique-name loop). Tied to /repo "
             "on every run by differential execution inside coqc; str()/describe()/get_details()/MismatchError of "
             "every name in testtools.matchers.__all__ are sampled.",
@@ -39,7 +39,9 @@ RULE = ("three kinds of case: text_repr over an alphabet of quotes, backslash, n
         "incl. non-ASCII text, bytes and control characters, with and without annotation, plus random combinator "
         "expressions as in C06; real TestCases whose setUp, test method, tearDown and up to three cleanups are sequences "
         "of assertThat/expectThat/assert_that with colliding detail names and of statements raising a skip, failure, "
-        "expected failure, unexpected success or error (through skipTest/fail/expectFailure or directly): fixed "
+        "expected failure, unexpected success or error (through skipTest/fail/expectFailure or directly), with the "
+        "upcall super().setUp() / super().tearDown() at any position among the statements of setUp / tearDown (the "
+        "cleanups are registered and the earlier details attached before anything else in setUp): fixed "
         "corner cases, every body of up to 3 assertion statements, every two-step history (one assertion statement "
         "in one of five places x one raise of each kind in one of five places), then random programs; "
         "non-trivial = text with a quote or newline / a mismatch / at least 2 statements")
@@ -48,6 +50,7 @@ TRUSTED = ["unicodedata.category(c)[0] in 'CZ' (except space) as the oracle for 
            "evaluator on the implementation's output)"]
 ASSUMPTIONS = ["matchees given to MatchesPredicate are not tuples (its match() formats the matchee with %)",
                "details carry their payload token in their text so that they can be recognised in the outcome",
+               "setUp and tearDown upcall the base method exactly once unless a statement before the upcall raises (C02); "
                "test programs raise only Exception subclasses (no KeyboardInterrupt/SystemExit: C01) and do not use a "
                "detail named 'reason' or attach details from outside the assertion statements (C05)"]
 EXPLANATION = ("Theorems in coq/Props/C07.v; correspondence: text_repr output compared character for character with "
@@ -356,11 +359,15 @@ def drive_test(case):
             raise (Boom("boom") if direct else ValueError("boom"))
         raise RuntimeError("harness: statement did not raise")     # pragma: no cover
 
-    def run_stmts(self, stmts):
+    def run_stmts(self, stmts, up=None, upcall=None):
+        """one user function: the statements, with the upcall of the base class method before statement number
+        up (after the last one when up >= len(stmts)); a raise leaves the function"""
         raised = []
         ran.append(raised)
         try:
-            for kind, mis, flag in stmts:
+            for k, (kind, mis, flag) in enumerate(stmts):
+                if upcall is not None and k == up:
+                    upcall()
                 try:
                     if kind == 3:
                         do_raise(self, mis, flag)
@@ -377,21 +384,21 @@ def drive_test(case):
                 except BaseException:
                     raised.append(True)
                     raise
+            if upcall is not None and up >= len(stmts):
+                upcall()
         finally:
             done.append(1)
 
     class T(testtools.TestCase):
         def setUp(self):
-            super().setUp()
             for c in case["cleanups"]:
                 self.addCleanup(run_stmts, self, c)
             for n, t in case["pre"]:
                 self.addDetail(n, text_content("tok:%d" % t))
-            run_stmts(self, case["setup"])
+            run_stmts(self, case["setup"], case.get("setup_up", 0), super().setUp)
 
         def tearDown(self):
-            run_stmts(self, case["teardown"])
-            super().tearDown()
+            run_stmts(self, case["teardown"], case.get("teardown_up", len(case["teardown"])), super().tearDown)
 
         def test_x(self):
             run_stmts(self, case["body"])
@@ -479,8 +486,10 @@ def term(case, o):
         return q.pair(i, "(ODesc %s %s)" % (q.lst([t_kind(x) for x in o["kinds"]]),
                                             q.lst([q.boolean(b) for b in o["asserts"]])))
     i = "(ITest %s)" % q.record([("p_pre", q.lst([t_detail(d) for d in case["pre"]])),
-                                 ("p_setup", t_steps(case["setup"])), ("p_body", t_steps(case["body"])),
+                                 ("p_setup", t_steps(case["setup"])), ("p_setup_up", q.nat(case.get("setup_up", 0))),
+                                 ("p_body", t_steps(case["body"])),
                                  ("p_teardown", t_steps(case["teardown"])),
+                                 ("p_teardown_up", q.nat(case.get("teardown_up", len(case["teardown"])))),
                                  ("p_cleanups", q.lst([t_steps(c) for c in case["cleanups"]]))])
     ob = "(OTest %s %s %s %s)" % (q.lst([q.lst([q.boolean(b) for b in l]) for l in o["raised"]]), q.boolean(o["after"]),
                                   o["oc"], q.lst([t_detail(d) for d in o["details"]]))
